@@ -1,12 +1,14 @@
 """part `xfloat` (C19): xfloat.c, util.c (bf*), buffer.c (bufWr/RdSFloat, bufWr/RdDFloat), foam_c.c
-(fi[SD]FloDissemble/Assemble) vs Model/XFloat.lean.  Tie: hand model + correspondence (H)."""
-import os, struct, subprocess
+(fi[SD]FloDissemble/Assemble) vs Model/XFloat.lean.  Tie: hand model + correspondence (H).
+Plus an end-to-end sub-check (`e2e`, below): generated Aldor programs print float constants bit-exactly on twelve
+routes (interpreter / executable / saved .ao / saved .fm, each at -Q0, -Q2, -Q3); findings `xfloat-e2e|<route>|<class>`."""
+import os, shutil, struct, subprocess
 from vlib import common
 from vlib.common import VERIF
 
 NAME = "xfloat"
 BUILD_TARGETS = ["AldorVerif.Props.C19"]
-SOURCES = ["xfloat.c", "xfloat.h", "util.c", "buffer.c", "foam_c.c", "of_cfold.c", "cport.h"]
+SOURCES = ["xfloat.c", "xfloat.h", "util.c", "buffer.c", "foam_c.c", "of_cfold.c", "cport.h", "genc.c", "of_peep.c", "fint.c"]
 MODELLED = ("util.c: bfShiftUp bfShiftDn bfFirst1; xfloat.c: sfClassify dfClassify xsfClassify xdfClassify "
             "sfDissemble dfDissemble xsfDissemble xdfDissemble sfAssemble dfAssemble xsfAssemble xdfAssemble "
             "xsfToNative xdfToNative xsfFrNative xdfFrNative fracNormalize fracDenormalize (format constants of this "
@@ -411,6 +413,315 @@ def bisect_hash(ctx, exe, req, c, m):
     else:
         ctx.corr_broken.append((NAME, ln, ci, mi))
 
+
+# ======================================================================================================
+# end to end: constants through the whole compiler, six routes, bit-exact
+# ======================================================================================================
+# A generated Aldor program prints every value through Machine's `dissemble` (sign, exponent, fraction
+# word: fiSFloDissemble / fiDFloDissemble, i.e. the integer image of the float -- never the decimal
+# printer).  It is run
+#   interp-Q0   -Q0 -Ginterp prog.as          literals converted at run time (fiArrToSFlo / fiArrToDFlo)
+#   interp-Q2/3 -Q2 -Ginterp prog.as          literals and constant expressions folded, FOAM kept in memory
+#   c-Q0        -Q0 -Fx, ./prog               run-time conversion in the executable
+#   c-Q2/3      -Q2 -Fx, ./prog               folded constant written into C text (genc.c, DFloatSprint)
+#   ao-Q0/2/3   -Fao then -Ginterp prog.ao    folded constant through the portable encoding of the .ao
+#   fm-Q0/2/3   -Ffm then -Ginterp prog.fm    folded constant through the FOAM text
+# (-Q2 folds the literals of the small programs only: the inliner leaves `float` calls in a large top level;
+#  -Q3 folds all of them; the number of float constants in each .fm is recorded in the evidence)
+# All routes must print the same bit patterns, and for literals (and the four arithmetic operations on two
+# literals) the pattern python computes with correctly rounded conversions.  The main program holds the
+# finite values and the zeros; each class that may not even compile on some route (infinite literals,
+# NaN / infinity / minus zero produced by a constant expression) has a program of its own, so a failing
+# route is attributed to that class.  Findings: `xfloat-e2e|<route>|<class>`.
+
+E2E_LEVELS = (0, 2, 3)      # -Q0: run-time conversion; -Q2: folds in small programs; -Q3: folds every literal of the large one
+E2E_ROUTES = tuple("%s-Q%d" % (k, q) for k in ("interp", "c", "ao", "fm") for q in E2E_LEVELS)
+
+def f32(x):
+    """round a python float to single precision (C cast semantics: overflow gives infinity)"""
+    try: return struct.unpack(">f", struct.pack(">f", x))[0]
+    except OverflowError: return float("-inf") if x < 0 else float("inf")
+
+def bits32(x): return struct.unpack(">I", struct.pack(">f", x))[0]
+def bits64(x): return struct.unpack(">Q", struct.pack(">d", x))[0]
+def of_bits32(b): return struct.unpack(">f", struct.pack(">I", b))[0]
+def of_bits64(b): return struct.unpack(">d", struct.pack(">Q", b))[0]
+
+def dec_lit(v, digits):
+    """a decimal literal of the non-negative value with `digits` significant digits, in the form
+    d.ddddde-xx / d.ddddd (always a '.', no '+', no leading zeros in the exponent)"""
+    m, e = ("%.*e" % (digits - 1, v)).split("e")
+    if "." not in m: m += ".0"
+    e = int(e)
+    return m if e == 0 else "%se%d" % (m, e)
+
+def e2e_values(rng):
+    """[(prec, class, literal text or expression, expected bits)]; literal texts are non-negative decimals,
+    expressions are built from them with unary minus and one binary operation"""
+    V = []
+    def lit(prec, cls, text, neg=False):
+        d = float(text)
+        if prec == "S": exp = bits32(f32(d)) ^ (0x80000000 if neg else 0)
+        else: exp = bits64(d) ^ ((1 << 63) if neg else 0)
+        V.append((prec, cls, ("-" + text) if neg else text, exp))
+    def pat(prec, cls, b, neg=False, digits=None):
+        if prec == "S": lit("S", cls, dec_lit(of_bits32(b), digits or 9), neg)
+        else: lit("D", cls, dec_lit(of_bits64(b), digits or 17), neg)
+    # normal values that need all 9 / 17 digits, in bands where the digit count matters
+    for cls, lo, hi in (("band-0.1", 0.1, 0.125), ("band-10", 10.0, 16.0), ("band-1000", 1000.0, 1024.0),
+                        ("band-1e6", 1e6, float(1 << 20)), ("band-1", 1.0, 2.0), ("band-1e-3", 1e-3, 1.953125e-3)):
+        a, b = bits32(lo), bits32(hi)
+        for k in range(5):
+            pat("S", cls, rng.randrange(a + 1, b), neg=(k == 4))
+        pat("S", cls, b - 1); pat("S", cls, a + 1)
+        a, b = bits64(lo), bits64(hi)
+        for k in range(5):
+            pat("D", cls, rng.randrange(a + 1, b), neg=(k == 4))
+        pat("D", cls, b - 1); pat("D", cls, a + 1)
+    def rnd(draw, val):
+        # magnitudes in [1e16, 1e17) have a program of their own (class int17)
+        while True:
+            b = draw()
+            if not 1e16 <= val(b) < 1e17: return b
+    for _ in range(12):
+        pat("S", "random", rnd(lambda: (rng.randrange(1, 255) << 23) | rng.getrandbits(23), of_bits32))
+        pat("D", "random", rnd(lambda: (rng.randrange(1, 2047) << 52) | rng.getrandbits(52), of_bits64))
+    # powers of two and their neighbours
+    for k in (-126, -125, -100, -24, -10, -1, 0, 1, 3, 10, 23, 24, 31, 64, 100, 127):
+        b = (k + 127) << 23
+        pat("S", "pow2", b)
+        pat("S", "pow2", b + 1)
+        if k > -126: pat("S", "pow2", b - 1)
+    for k in (-1022, -1021, -500, -53, -10, -1, 0, 1, 3, 10, 52, 53, 63, 64, 500, 1023):
+        b = (k + 1023) << 52
+        pat("D", "pow2", b)
+        pat("D", "pow2", b + 1)
+        if k > -1022: pat("D", "pow2", b - 1)
+    # range ends
+    for b in (0x7f7fffff, 0x7f7ffffe, 0x00800000, 0x00800001): pat("S", "extreme", b)
+    for b in (0x7fefffffffffffff, 0x7feffffffffffffe, 0x0010000000000000, 0x0010000000000001): pat("D", "extreme", b)
+    lit("S", "extreme", "3.4028235e38"); lit("S", "extreme", "1.17549435e-38", neg=True)
+    lit("D", "extreme", "1.7976931348623157e308"); lit("D", "extreme", "2.2250738585072014e-308", neg=True)
+    # subnormals: minimum, exact powers of two, largest, random
+    for b in (1, 2, 3, 1 << 10, 1 << 22, 0x007fffff, 0x00400001) + tuple(rng.getrandbits(23) | 1 for _ in range(5)):
+        pat("S", "subnormal", b)
+    for b in (1, 2, 3, 1 << 30, 1 << 51, 0x000fffffffffffff, 0x0008000000000001) + tuple(rng.getrandbits(52) | 1 for _ in range(5)):
+        pat("D", "subnormal", b)
+    pat("S", "subnormal", 1, neg=True); pat("D", "subnormal", 1, neg=True)
+    lit("S", "subnormal", "1.0e-45"); lit("S", "subnormal", "1.4e-45"); lit("D", "subnormal", "4.9e-324"); lit("D", "subnormal", "5.0e-324")
+    # short literals, long literals, literals that round to zero
+    for t in ("0.1", "0.3", "0.5", "1.0", "2.5", "3.14159", "100.0", "1.0e10", "6.02214076e23", "1.0e-7", "16777217.0", "9007199254740993.0",
+              "0.1000000000000000055511151231257827", "1.00000005960464477539062500001", "123456789012345678901234567890.0"):
+        lit("S", "plain", t); lit("D", "plain", t)
+    lit("S", "zero", "0.0"); lit("D", "zero", "0.0"); lit("S", "zero", "1.0e-60"); lit("D", "zero", "1.0e-400")
+    # constant expressions (folded at -Q2)
+    for a, op, b in (("0.3", "*", "0.4"), ("3.0", "/", "26.0"), ("0.1", "+", "0.2"), ("1.0", "-", "0.9"), ("1.0", "/", "3.0"),
+                     ("1.0e-30", "*", "1.0e-10"), ("16777216.0", "+", "1.0"), ("1.0e30", "*", "1.0e8")):
+        x, y = float(a), float(b)
+        fs = {"*": lambda p, q: p * q, "/": lambda p, q: p / q, "+": lambda p, q: p + q, "-": lambda p, q: p - q}[op]
+        V.append(("S", "folded-expr", "%s %s %s" % (a, op, b), bits32(f32(fs(f32(x), f32(y))))))
+        V.append(("D", "folded-expr", "%s %s %s" % (a, op, b), bits64(fs(x, y))))
+    return V
+
+E2E_HEAD = """#include "aldor"
+#include "aldorio"
+import from Machine;
+local showS(tag: String, x: SFlo): () == {
+	import from MachineInteger, Boolean;
+	(s, e, m) := dissemble x;
+	stdout << "S " << tag << " " << s::Boolean << " " << e::MachineInteger << " " << (m pretend SInt)::MachineInteger << newline;
+}
+local showD(tag: String, x: DFlo): () == {
+	import from MachineInteger, Boolean;
+	(s, e, m1, m2) := dissemble x;
+	stdout << "D " << tag << " " << s::Boolean << " " << e::MachineInteger << " " << (m1 pretend SInt)::MachineInteger << newline;
+}
+import from SingleFloat, DoubleFloat;
+"""
+
+def e2e_main_program(V):
+    L = [E2E_HEAD]
+    for i, (prec, cls, text, exp) in enumerate(V):
+        ty, conv = ("SingleFloat", "SFlo") if prec == "S" else ("DoubleFloat", "DFlo")
+        L.append('show%s("%s.%d", ((%s)@%s)::%s);' % (prec, cls, i, text, ty, conv))
+    return "\n".join(L) + "\n"
+
+# classes with a program of their own: (class, body lines, expected {tag: bits})
+E2E_SPECIAL = (
+    ("negzero",
+     ['showS("negzero.0", ((-0.0)@SingleFloat)::SFlo);', 'showD("negzero.1", ((-0.0)@DoubleFloat)::DFlo);'],
+     {("S", "negzero.0"): 0x80000000, ("D", "negzero.1"): 1 << 63}),
+    ("int17",      # 17 digits before the decimal point: `%#.17g` prints no digit after it
+     ['showS("int17.0", ((8.3691741e16)@SingleFloat)::SFlo);', 'showD("int17.1", ((1.2345678901234567e16)@DoubleFloat)::DFlo);',
+      'showD("int17.2", ((1.0e16)@DoubleFloat)::DFlo);', 'showS("int17.3", ((9.9999998e16)@SingleFloat)::SFlo);'],
+     {("S", "int17.0"): bits32(f32(8.3691741e16)), ("D", "int17.1"): bits64(1.2345678901234567e16),
+      ("D", "int17.2"): bits64(1.0e16), ("S", "int17.3"): bits32(f32(9.9999998e16))}),
+    ("inf-literal",
+     ['showS("inf-literal.0", ((1.0e39)@SingleFloat)::SFlo);', 'showD("inf-literal.1", ((1.0e400)@DoubleFloat)::DFlo);',
+      'showS("inf-literal.2", ((-1.0e39)@SingleFloat)::SFlo);', 'showD("inf-literal.3", ((-1.0e400)@DoubleFloat)::DFlo);'],
+     {("S", "inf-literal.0"): 0x7f800000, ("D", "inf-literal.1"): 0x7ff0000000000000,
+      ("S", "inf-literal.2"): 0xff800000, ("D", "inf-literal.3"): 0xfff0000000000000}),
+    ("inf-expr",
+     ['{ z: SFlo := ((0.0)@SingleFloat)::SFlo; o: SFlo := ((1.0)@SingleFloat)::SFlo; showS("inf-expr.0", o/z); showS("inf-expr.1", (-o)/z);',
+      '  dz: DFlo := ((0.0)@DoubleFloat)::DFlo; d1: DFlo := ((1.0)@DoubleFloat)::DFlo; showD("inf-expr.2", d1/dz); showD("inf-expr.3", (-d1)/dz); }',
+      'showS("inf-expr.4", ((1.0e30 * 1.0e30)@SingleFloat)::SFlo);', 'showD("inf-expr.5", ((1.0e300 * 1.0e300)@DoubleFloat)::DFlo);'],
+     {("S", "inf-expr.0"): 0x7f800000, ("S", "inf-expr.1"): 0xff800000, ("D", "inf-expr.2"): 0x7ff0000000000000,
+      ("D", "inf-expr.3"): 0xfff0000000000000, ("S", "inf-expr.4"): 0x7f800000, ("D", "inf-expr.5"): 0x7ff0000000000000}),
+    ("nan-expr",
+     ['{ z: SFlo := ((0.0)@SingleFloat)::SFlo; showS("nan-expr.0", z/z);',
+      '  dz: DFlo := ((0.0)@DoubleFloat)::DFlo; showD("nan-expr.1", dz/dz); }'],
+     {("S", "nan-expr.0"): "nan", ("D", "nan-expr.1"): "nan"}),
+    ("negzero-expr",
+     ['{ z: SFlo := ((0.0)@SingleFloat)::SFlo; showS("negzero-expr.0", -z); showS("negzero-expr.1", z * (-(((1.0)@SingleFloat)::SFlo)));',
+      '  dz: DFlo := ((0.0)@DoubleFloat)::DFlo; showD("negzero-expr.2", -dz); showD("negzero-expr.3", dz * (-(((1.0)@DoubleFloat)::DFlo))); }'],
+     {("S", "negzero-expr.0"): 0x80000000, ("S", "negzero-expr.1"): 0x80000000,
+      ("D", "negzero-expr.2"): 1 << 63, ("D", "negzero-expr.3"): 1 << 63}),
+)
+
+def e2e_parse(out):
+    """{(prec, tag): bits} from the lines `S tag T|F exponent fractionword` of a run"""
+    res = {}
+    for ln in out.split("\n"):
+        t = ln.split()
+        if len(t) != 5 or t[0] not in ("S", "D") or t[2] not in ("T", "F"): continue
+        try:
+            e, m = int(t[3]), int(t[4])
+        except ValueError:
+            continue
+        s = 1 if t[2] == "T" else 0
+        if t[0] == "S":
+            # fiSFloDissemble stores 4 bytes into the 8-byte word: the rest is whatever the word held
+            P = int.from_bytes((m & M32).to_bytes(4, "little"), "big")
+            bits = (s << 31) | (((e + 127) & 0xff) << 23) | (P >> 9)
+            bad = P & 0x1ff or not -127 <= e <= 128
+        else:
+            P = int.from_bytes((m & M64).to_bytes(8, "little"), "big")
+            bits = (s << 63) | (((e + 1023) & 0x7ff) << 52) | (P >> 12)
+            bad = P & 0xfff or not -1023 <= e <= 1024
+        res[(t[0], t[1])] = "malformed:" + ln if bad else bits
+    return res
+
+def _e2e_res(rc, out, err=""):
+    return {"rc": rc, "out": out, "err": err}
+
+def e2e_interp(build, text, q):
+    from vlib import aldor
+    r = aldor.compile(build, {"prog.as": text}, ["-Q%d" % q, "-Ginterp", "prog.as"], timeout=300)
+    return {"interp-Q%d" % q: _e2e_res(r["rc"], r["stdout"], r["stderr"])}
+
+def e2e_native(build, text, q):
+    """one compilation gives the executable, the .ao and the .fm; the saved files are then interpreted in
+    fresh directories"""
+    from vlib import aldor
+    res = {}
+    r = aldor.compile(build, {"prog.as": text}, ["-Q%d" % q, "-Fx", "-Fao", "-Ffm"] + aldor.c_opts(build) + ["prog.as"],
+                      timeout=600, keep=True)
+    try:
+        exe = os.path.join(r["dir"], "prog")
+        if r["rc"] == 0 and os.path.exists(exe):
+            rc, out, err = common.run([exe], cwd=r["dir"], timeout=120)
+            res["c-Q%d" % q] = _e2e_res(rc, out, err)
+        else:
+            res["c-Q%d" % q] = _e2e_res("nocompile", "", (r["stdout"] + r["stderr"])[-1500:])
+        ao, fm = r["outputs"].get("prog.ao"), r["outputs"].get("prog.fm")
+    finally:
+        shutil.rmtree(r["top"], ignore_errors=True)
+    if ao is None or fm is None:
+        r2 = aldor.compile(build, {"prog.as": text}, ["-Q%d" % q, "-Fao", "-Ffm", "prog.as"], timeout=600)
+        ao, fm = r2["outputs"].get("prog.ao"), r2["outputs"].get("prog.fm")
+    for kind, data in (("ao", ao), ("fm", fm)):
+        if data is None:
+            res["%s-Q%d" % (kind, q)] = _e2e_res("nocompile", "", "no prog.%s written" % kind)
+            continue
+        r3 = aldor.compile(build, {"prog." + kind: data}, ["-Ginterp", "prog." + kind], timeout=300)
+        res["%s-Q%d" % (kind, q)] = _e2e_res(r3["rc"], r3["stdout"], r3["stderr"])
+    if fm is not None:
+        res["fm-Q%d" % q]["consts"] = fm.count(b"(SFlo ") + fm.count(b"(DFlo ")
+    return res
+
+def e2e_run_program(build, text):
+    from vlib import aldor
+    jobs = [(e2e_interp, (build, text, q), {}) for q in E2E_LEVELS] + [(e2e_native, (build, text, q), {}) for q in E2E_LEVELS]
+    out = {}
+    for r in aldor.run_many(jobs, workers=len(jobs)):
+        if isinstance(r, Exception):
+            raise r
+        out.update(r)
+    return out
+
+def fmt_bits(prec, b):
+    if not isinstance(b, int): return str(b)
+    return ("%08x" if prec == "S" else "%016x") % b
+
+def e2e(ctx, build, stats):
+    """the end-to-end sub-check; findings `xfloat-e2e|<route>|<class>`"""
+    import concurrent.futures as cf
+    V = e2e_values(ctx.rng)
+    main = e2e_main_program(V)
+    expected = {(prec, "%s.%d" % (cls, i)): exp for i, (prec, cls, text, exp) in enumerate(V)}
+    texts = {(prec, "%s.%d" % (cls, i)): text for i, (prec, cls, text, exp) in enumerate(V)}
+    programs = [("main", main, expected)]
+    # a small program with one value of each digit-sensitive class and precision: small enough for -Q2 to fold it
+    seen_cls, small, small_exp = set(), [E2E_HEAD], {}
+    for i, (prec, cls, text, exp) in enumerate(V):
+        if (prec, cls) in seen_cls or not (cls.startswith("band-") or cls in ("pow2", "folded-expr", "subnormal")): continue
+        seen_cls.add((prec, cls))
+        ty, conv = ("SingleFloat", "SFlo") if prec == "S" else ("DoubleFloat", "DFlo")
+        small.append('show%s("%s.%d", ((%s)@%s)::%s);' % (prec, cls, i, text, ty, conv))
+        small_exp[(prec, "%s.%d" % (cls, i))] = exp
+    programs.append(("small", "\n".join(small) + "\n", small_exp))
+    for cls, body, exp in E2E_SPECIAL:
+        programs.append((cls, E2E_HEAD + "\n".join(body) + "\n", exp))
+        for k in exp: texts[k] = "(see program)"
+    with cf.ThreadPoolExecutor(max_workers=len(programs)) as ex:
+        futs = [ex.submit(e2e_run_program, build, text) for _, text, _ in programs]
+        runs = [f.result() for f in futs]
+    st = {"values": len(V), "programs": len(programs), "routes": len(E2E_ROUTES), "compared": 0, "differences": 0, "route_failures": 0,
+          "classes": sorted({c for _, c, _, _ in V} | {c for c, _, _ in E2E_SPECIAL})}
+    st["float_constants_in_fm"] = {"%s-Q%d" % (pn, q): run.get("fm-Q%d" % q, {}).get("consts")
+                                   for (pn, _, _), run in zip(programs, runs) for q in E2E_LEVELS}
+    reported = set()
+    def report(route, cls, what, replay):
+        st["differences"] += 1
+        sig = "xfloat-e2e|%s|%s" % (route, cls)
+        if sig in reported: return
+        reported.add(sig)
+        ctx.finding(sig, what, replay)
+    for (pname, text, exp), run in zip(programs, runs):
+        for route in E2E_ROUTES:
+            r = run.get(route) or _e2e_res("missing", "")
+            got = e2e_parse(r["out"])
+            failed = r["rc"] != 0
+            if failed:
+                st["route_failures"] += 1
+            for key in sorted(exp, key=lambda k: int(k[1].rsplit(".", 1)[1])):
+                prec, tag = key
+                cls = tag.rsplit(".", 1)[0]
+                want = exp[key]
+                have = got.get(key)
+                st["compared"] += 1
+                if have is None:
+                    ok, why = False, ("the route fails (rc=%s): %s" % (r["rc"], (r["err"] or r["out"])[-300:].replace("\n", " | "))) if failed else "no line for this value"
+                elif want == "nan":
+                    ok = isinstance(have, int) and (isnan32(have) if prec == "S" else isnan64(have))
+                    why = "not a NaN"
+                else:
+                    ok, why = have == want, "differs"
+                if not ok:
+                    report(route, cls,
+                           "constant `%s` (%s, class %s) on route %s: got %s, the correctly rounded run-time value is %s (%s); program `%s`"
+                           % (texts[key], "SingleFloat" if prec == "S" else "DoubleFloat", cls, route, fmt_bits(prec, have) if have is not None else "nothing",
+                              fmt_bits(prec, want), why, pname),
+                           {"kind": "e2e-constant-differs", "route": route, "class": cls, "value": texts[key], "precision": prec,
+                            "got": fmt_bits(prec, have) if have is not None else None, "expected": fmt_bits(prec, want),
+                            "rc": r["rc"], "diagnostics": (r["err"] or "")[-1500:], "program": text,
+                            "replay_cmd": {"interp": "aldor -Q%s -Ginterp prog.as", "c": "aldor -Q%s -Fx prog.as && ./prog",
+                                           "ao": "aldor -Q%s -Fao prog.as; aldor -Ginterp prog.ao",
+                                           "fm": "aldor -Q%s -Ffm prog.as; aldor -Ginterp prog.fm"}[route.split("-")[0]] % route.split("Q")[1]})
+    stats["e2e"] = st
+    ctx.cov["evaluations"] += st["compared"]
+    return st
+
 def run_part(ctx, build):
     exe = build.cc_driver("xfloat_drv", os.path.join(VERIF, "harness", "xfloat_drv.c"))
     lines, ncorpus, nexh = gen_lines(ctx)
@@ -470,6 +781,7 @@ def run_part(ctx, build):
             ctx.sample({"module": "xfloat", "request": ln, "impl": co, "model": mo, "tags": tags[k]})
     if ctx.tier == "thorough":
         thorough_sweep(ctx, exe, stats)
+    e2e(ctx, build, stats)
     stats["lit_differs_from_python"] = stats["lit_differs_from_python"][:5]
     stats["distinct_results"] = len(seen)
     stats["tags"] = common.tag_hist(tags)
